@@ -50,7 +50,7 @@ class RecordingMapping(MutableMapping):
 # ---------------------------------------------------------------------------
 
 DURS = ['none', 0, D0, 4 * D0]
-LIVES = ['runner', 'runner', 'closeonly', 'noclose', 'destroy']
+LIVES = ['runner', 'runner', 'closeonly', 'closeonly', 'noclose', 'destroy']
 
 
 def gen_rand(rng, flavour):
@@ -152,7 +152,7 @@ class CacheHarness:
         self.A = A
         self.execute = execute or simrt.execute      # Engine B passes its own
 
-    def run(self, scen, strategy, inject=None, max_steps=60000, delays=None):
+    def run(self, scen, strategy, inject=None, max_steps=60000, delays=None, gc_at=None):
         """inject: None or dict(thread=name, k=int, then='leave'|'close'|'runner')"""
         A = self.A
         box = {}
@@ -303,6 +303,11 @@ class CacheHarness:
                         return
                     emit('lclose', lname)
                     loop.close()
+                    if life == 'closeonly':
+                        # closed without cancelling: the pending tasks are garbage from here on and are finalised
+                        # whenever the collector next runs, in whichever thread that happens
+                        tasks.clear()
+                        aio.set_event_loop(None)
                 return body
 
             for ti, spec in enumerate(scen['threads']):
@@ -311,6 +316,13 @@ class CacheHarness:
         def pre(s):
             if delays and hasattr(s, 'line_delays'):
                 s.line_delays = [dict(d) for d in delays]
+            if gc_at is not None and hasattr(s, 'at'):
+                def collect():
+                    import gc
+                    s.log.append(('gc', gc_at['thread'], gc_at['k'], s.now))
+                    n = gc.collect()
+                    s.log.append(('gc_done', n, s.now))
+                s.at(gc_at['thread'], gc_at['k'], collect)
             if inject is not None:
                 def stopper():
                     try:
@@ -416,14 +428,19 @@ def judge_c01(v: View, res: CaseResult, retaining=True, overlap=True):
         if c['kind'] == 'ok':
             val = c['detail']
             fo = first_ok.get(c['key'])
-            if retaining and (fo is None or tuple(val) != (c['key'], fo['n'])):
+            if retaining and (fo is None or not well_formed(val) or tuple(val) != (c['key'], fo['n'])):
                 res.violate('C01:wrong-result', 'caller got a value other than the one successful result',
                             caller=c, first_ok=fo)
 
 
+def well_formed(val):
+    """values produced by the harness function are (key, invocation number)"""
+    return isinstance(val, tuple) and len(val) == 2 and isinstance(val[1], int)
+
+
 def classify_waits(v: View, res: CaseResult):
     for c in v.calls.values():
-        if c['kind'] != 'ok':
+        if c['kind'] != 'ok' or not well_formed(c['detail']):
             continue
         n = c['detail'][1]
         d = v.inv.get(n)
@@ -464,9 +481,10 @@ def judge_c06(v: View, res: CaseResult, cache, scen):
         elif k == 'timeout':
             res.stats['own_timeout'] += 1
         elif k == 'ok':
-            if tuple(c['detail']) not in ok_vals:
+            if not well_formed(c['detail']) or tuple(c['detail']) not in ok_vals:
                 res.violate('C06:value-not-from-success', 'caller returned something no successful invocation produced',
                             caller=c)
+                continue
             n = c['detail'][1]
             if any(o['kind'] in ('raise', 'cancel') and o['key'] == c['key'] and o['s1'] is not None
                    and o['s1'] < (v.inv[n]['s0'] if n in v.inv else -1) for o in v.inv.values()):
@@ -479,7 +497,7 @@ def judge_c06(v: View, res: CaseResult, cache, scen):
             items = {}
         for key, val in items.items():
             k = key[0][0]
-            if tuple(val) not in ok_vals or val[0] != k:
+            if not well_formed(val) or tuple(val) not in ok_vals or val[0] != k:
                 res.violate('C06:cached-without-success', 'cache holds a value no successful invocation produced',
                             key=repr(key), value=repr(val))
 
@@ -654,6 +672,11 @@ class CacheCheck(Check):
             self._delays = [{'thread': f'T{rng.randrange(len(scen["threads"]))}', 'qual': 'threadsafe_async_cache',
                              'nth': rng.randint(1, 70),
                              'd': rng.choice([U, D0, 4 * D0, (dn[0] if dn else D0) + U, 61.0])}]
+        self._gc_at = None
+        if inject is None and any(t['life'] == 'closeonly' for t in scen['threads']) and rng.random() < 0.5:
+            # the garbage collector runs at the k-th yield point of one thread (the cyclic collector is otherwise
+            # off during an execution): abandoned computations are finalised there, whatever that thread holds
+            self._gc_at = {'thread': f'T{rng.randrange(len(scen["threads"]))}', 'k': rng.randrange(3, 160)}
         return scen, strat, inject
 
     def run_real(self, case):
@@ -691,7 +714,7 @@ class CacheCheck(Check):
         if case['fam'] == 'real':
             return self.run_real(case)
         scen, strat, inject = self.build(case)
-        r = self.h.run(scen, strat, inject, delays=self._delays)
+        r = self.h.run(scen, strat, inject, delays=self._delays, gc_at=self._gc_at)
         res = CaseResult()
         res.sig = r.signature
         res.cov = {k: c for k, c in r.sched.line_cov.items() if k[0].startswith(self.anchors)}
@@ -714,6 +737,10 @@ class CacheCheck(Check):
             st['injected_loop_stop'] += 1
         if r.sched.delays_fired:
             st['long_delay_injected'] += 1
+        if any(e[0] == 'gc' for e in r.log):
+            st['gc_injected'] += 1
+            if any(e[0] == 'iend' and e[2] == 'gexit' for e in r.log):
+                st['gc_finalised_abandoned_computation'] += 1
         v.delays = [(t0, t0 + d) for _, _, d, t0 in r.sched.delays_fired]
         classify_waits(v, res)
         moved = any(q.endswith('_wrapper') for q, _ in r.sched.switch_lines)
